@@ -73,8 +73,14 @@ for _order, _tier in ((2, "quick"), (3, "thorough")):
         for _mode in (0, 1, 2):
             O(id="C17.step_%s_%s_o%d" % (_MODE[_mode], _KT[_kt], _order), props=["C17"] + (["C04", "C03"] if _kt == 2 and _order == 2 else []),
               harness="harness/c17_hashtable.c", tier=_tier,
-              defines=["KT=%d" % _kt, "MODE=%d" % _mode, "ORDER=%d" % _order], unwind=2 * (1 << _order) + 2,
-              unwindset={"strcmp.0": 3}, reach=_REACH[_mode],
+              defines=["KT=%d" % _kt, "MODE=%d" % _mode, "ORDER=%d" % _order], unwind=(1 << _order) + 1,
+              # per-loop bounds derived from the table geometry: SIZE slots, add_range = SIZE/2, 6 keys
+              unwindset={"strcmp.0": 3, "inv.0": (1 << (_order - 1)) + 1, "inv.1": (1 << _order) + 1, "inv.2": (1 << _order) + 1, "inv.3": (1 << _order) + 1,
+                         "slot_kidx.0": 7, "alookup.0": (1 << _order) + 1, "harness.0": 7, "harness.1": (1 << _order) + 1, "harness.2": (1 << _order) + 1,
+                         "harness.3": (1 << _order) + 1, "hash_func_T_string.0": 3,
+                         "hashtable_put_T.0": (1 << (_order - 1)) + 2, "hashtable_put_T.1": (1 << (_order - 1)) + 2, "hashtable_put_T.2": 3,
+                         "hashtable_get_T.0": (1 << (_order - 1)) + 2, "hashtable_remove_T.0": (1 << (_order - 1)) + 2,
+                         "find_closer_entry_T.0": 1, "find_closer_entry_T.1": 1}, reach=_REACH[_mode],
               functions=["hashtable_%s_T (DECLARE_HASHTABLE_%s)" % (_MODE[_mode], _KT[_kt].upper())],
               symbolic="whole table (hop bitmaps, keys, values), home bucket of each of 6 keys, operated key, observed key, value",
               stubs=["hs_hash32/hs_hash6432shift replaced by an arbitrary function key -> bucket (solver variables)"],
@@ -711,16 +717,8 @@ O(id="C10.writev_step_3x3", props=["C10", "C11"], entry="harness_writev", tier="
   functions=["buffered_socket_writev", "copy_iovec_to_write_buffer", "copy_single_buffer", "send_buffer"],
   symbolic="as C10.writev_step with chunks of up to 3 bytes and a 6 byte write buffer", assumes=["to_write <= W"], bounds="W=6, frame = 2 chunks of <=3 bytes",
   **dict(_bs, unwind=10, config={"CONFIG_MAX_WRITE_BUFFER_SIZE": 6, "CONFIG_MAX_MESSAGE_SIZE": 4}, timeout={"quick": 900, "thorough": 3600}))
-O(id="C19.reassemble_20", props=["C19", "C06"], entry="harness_reassemble", tier="thorough", reach=["second_fragment_larger_than_doubled_buffer"],
-  functions=["reassemble"], unwind=6, unwindset={"verif_memcpy.0": 22, "write_int_to_array.0": 5, "reassemble.0": 5}, defines=["FMAX=20"],
-  symbolic="lengths of two fragments (1..20 bytes each)", assumes=["allocations succeed"], bounds="two fragments of <= 20 bytes (24 ran out of memory at 9.4 GB)", timeout={"quick": 900, "thorough": 3600}, **_c19)
 for _off in (0, 5):
     O(id="C18.auto_aligned_len25_off%d" % _off, entry="harness_auto", tier="thorough", unwind=27, reach=["auto_word_path"], defines=["ALEN=25", "AOFF=%d" % _off],
       symbolic="text bytes, length 0..25, is_complete; alignment %d" % _off, bounds="length <= 25 (two 64-bit words)", timeout={"quick": 900, "thorough": 3600},
       **dict(_c18, functions=["cjet_is_word_sequence_valid_auto_alligned"]))
-O(id="C19.offer_bytes", props=["C19", "C06"], entry="harness_offer_bytes", tier="thorough", reach=[], unwind=12, defines=["OFFER_TAIL=3"],
-  unwindset={"strlen.0": 30, "memcmp.0": 30, "fill_requested_extension.0": 30, "fill_requested_extension.1": 30, "fill_requested_extension.2": 30,
-             "check_websocket_extensions.0": 30, "check_websocket_extensions.1": 30, "memcpy.0": 30, "harness_offer_bytes.0": 21, "harness_offer_bytes.1": 8, "harness_offer_bytes.2": 131},
-  functions=["check_websocket_extensions", "fill_requested_extension", "write_to_response"],
-  symbolic="0..3 arbitrary bytes after 'permessage-deflate;' in an exact-size, unterminated header value",
-  assumes=["realloc succeeds"], bounds="offer tail <= 3 bytes (6 bytes: no verdict in 600 s)", timeout={"quick": 900, "thorough": 3600}, **_wu)
+# (C19.offer_bytes - fill_requested_extension on symbolic offer bytes - gave no verdict in 25 min even for 3 symbolic bytes: not registered, see DESIGN.md 8.4)
